@@ -322,6 +322,7 @@ int main(int argc, char **argv) {
         }
     };
     double t0 = vr::now_s();
+    A.has("out"); A.require_all_used();
     auto res = R.run(total_units, work, describe);
     double wall = vr::now_s() - t0;
     std::vector<std::string> samples;
